@@ -102,6 +102,9 @@ def counter_chain(chk, rule, prog, fids):
                     returned.add(src["l"])
         for (wb, v, ln) in writes:
             if v not in incs:
+                if v in returned:
+                    n += 1
+                    chk.add(Finding(rule, "%s::%s::noinc" % (rule, mir.strip_generics(fid)), "%s returns the variable it assigns uids from without ever incrementing it past the last assigned uid: the next list starts at a uid that is already in use" % fid, b.where(ln)))
                 continue     # not a counter (constant uid etc.)
             n += 1
             sinks = [x for (x, v2, _) in writes if v2 == v]
